@@ -104,6 +104,9 @@ type Change struct {
 	ID    http2.SettingID
 	Val   uint32
 	Lower bool
+	// probe only: lower without draining, once exactly WaitRecv payload bytes have been received
+	NoDrain  bool
+	WaitRecv int64
 }
 
 type Phase struct {
